@@ -1,6 +1,7 @@
 package main
 
 import (
+	"go/token"
 	"fmt"
 	"go/ast"
 	"go/types"
@@ -225,7 +226,7 @@ func runC11(r *Run) {
 	r.rule("C11.R1", "explicit panics / Must* / unchecked type assertions reachable from unrecovered roots are of an accepted class", 90)
 	r.rule("C11.R2", "no dereference of a pointer/map/interface result after its error was logged-and-continued or discarded", 2)
 	r.rule("C11.R3", "every division reachable from unrecovered roots has a non-zero divisor by construction, by a dominating test, or by validation at its writers", 8)
-	r.rule("C11.R3w", "witness for the audited divisor: TokenFeeder validation rejects Interval < 1", 1)
+	r.rule("C11.R3w", "witnesses for the audited divisor: TokenFeeder validation rejects Interval < 1; every writer of oracle params validates or constructs non-zero intervals", 4)
 	r.rule("C11.R5", "the ok result of big.Int.SetString / NewIntFromString is checked before the value is used on unrecovered paths", 2)
 
 	br := blockReachable(w)
@@ -378,6 +379,110 @@ func runC11(r *Run) {
 		}
 	}
 	r.check(found, "C11.R3w", "oracle|TokenFeeder.Interval>=1", "-", "TokenFeeder validation rejects Interval < 1", "no validation `Interval < 1 -> ErrInvalidParams` found in x/oracle/types: feeder.Interval can be zero and PrepareRoundEndBlock divides by it in EndBlock")
+	// writer side: every function that stores oracle params either validated them on the way, or gives every
+	// feeder it constructs a non-zero interval by construction (positive constant, or a variable that an
+	// unconditional `if x == 0 { x = <positive constant> }` fixed up before and that is not assigned after)
+	for _, fv := range w.allViews() {
+		if !strings.HasPrefix(fv.ID(), "x/oracle") {
+			continue
+		}
+		var sets []*ast.CallExpr
+		for _, c := range fv.CallsNamed("SetParams") {
+			if cal := fv.callee(c); cal != nil && cal.Pkg() != nil && strings.HasSuffix(cal.Pkg().Path(), "x/oracle/keeper") && len(c.Args) == 2 {
+				sets = append(sets, c)
+			}
+		}
+		if len(sets) == 0 || fv.Decl.Name.Name == "SetParams" {
+			continue
+		}
+		r.saw(fv.ID())
+		lits := fv.compositeLits(fv.Decl.Body, "TokenFeeder")
+		assigns := fv.assignmentsToField(fv.Decl.Body, "Interval")
+		for i, c := range sets {
+			key := fmt.Sprintf("oracle|params-writer|%s#%d", fv.ID(), i+1)
+			validated := false
+			for _, f := range fv.FactsAt(c, false) {
+				if o := fv.outcome(f); o != nil && (o.Callee.Name() == "Validate" || o.Callee.Name() == "ValidateBasic") && o.Success {
+					validated = true
+				}
+			}
+			if fv.Decl.Name.Name == "InitGenesis" {
+				validated = true // genesis state is validated by ValidateGenesis before InitGenesis (module manager contract)
+			}
+			if validated {
+				r.ok("C11.R3w", key, fv.pos(c), "params are validated (Interval >= 1) before they are stored")
+				continue
+			}
+			okAll := true
+			why := ""
+			for _, cl := range lits {
+				iv := compositeField(cl, "Interval")
+				if iv == nil {
+					okAll, why = false, "a TokenFeeder literal at "+fv.pos(cl)+" has no Interval"
+					continue
+				}
+				if cv := fv.constOf(iv); cv != nil {
+					if cv.ExactString() == "0" {
+						okAll, why = false, "a TokenFeeder literal has Interval 0"
+					}
+					continue
+				}
+				obj := fv.objOf(iv)
+				fixed := false
+				if obj != nil {
+					var fix *ast.IfStmt
+					for _, st := range fv.Decl.Body.List {
+						ifs, isIf := st.(*ast.IfStmt)
+						if !isIf || ifs.Pos() > cl.Pos() || ifs.Else != nil || len(ifs.Body.List) != 1 {
+							continue
+						}
+						b, isB := stripParens(ifs.Cond).(*ast.BinaryExpr)
+						as, isAs := ifs.Body.List[0].(*ast.AssignStmt)
+						if isB && isAs && b.Op == token.EQL && fv.objOf(b.X) == obj && exprString(b.Y) == "0" && len(as.Lhs) == 1 && fv.objOf(as.Lhs[0]) == obj {
+							if cv := fv.constOf(as.Rhs[0]); cv != nil && cv.ExactString() != "0" && !strings.HasPrefix(cv.ExactString(), "-") {
+								fix = ifs
+							}
+						}
+					}
+					if fix != nil {
+						fixed = true
+						// not assigned again between the fix-up and the literal
+						ast.Inspect(fv.Decl.Body, func(n ast.Node) bool {
+							if as, ok := n.(*ast.AssignStmt); ok && as.Pos() > fix.End() && as.Pos() < cl.Pos() {
+								for _, l := range as.Lhs {
+									if fv.objOf(l) == obj {
+										fixed = false
+									}
+								}
+							}
+							return true
+						})
+					}
+					for _, f := range fv.FactsAt(cl, false) {
+						if cm, ok := factCmp(f); ok && fv.objOf(cm.L) == obj && ((cm.Op == "!=" && exprString(cm.R) == "0") || (cm.Op == ">" && exprString(cm.R) == "0") || (cm.Op == ">=" && exprString(cm.R) == "1")) {
+							fixed = true
+						}
+					}
+				}
+				if !fixed {
+					okAll, why = false, "the TokenFeeder literal at "+fv.pos(cl)+" takes Interval from "+exprString(iv)+", which is not made non-zero before"
+				}
+			}
+			for _, as := range assigns {
+				// feeder.Interval = x: only under x > 0
+				okA := false
+				for _, f := range fv.FactsAt(as, false) {
+					if cm, ok := factCmp(f); ok && cm.Op == ">" && exprString(cm.R) == "0" && sameExpr(cm.L, as.Rhs[0]) {
+						okA = true
+					}
+				}
+				if !okA {
+					okAll, why = false, "Interval is assigned at "+fv.pos(as)+" without a positivity test"
+				}
+			}
+			r.check(okAll, "C11.R3w", key, fv.pos(c), "params stored without validation only contain feeders whose interval is non-zero by construction", fv.ID()+" stores oracle params without validating them and "+why+": PrepareRoundEndBlock divides by the interval in EndBlock (chain halt)")
+		}
+	}
 }
 
 type nilAfter struct{ varName, pos, desc string }
